@@ -380,7 +380,12 @@ func (runInfo *runInfoStruct) invokeMemberExpr(expr *ast.MemberExpr) {
 				runInfo.rv = nilValue
 				return
 			}
-			runInfo.rv = runInfo.rv.FieldByIndex(field.Index)
+			// a field promoted through a nil embedded pointer cannot be reached (FieldByIndex panics)
+			runInfo.rv, runInfo.err = runInfo.rv.FieldByIndexErr(field.Index)
+			if runInfo.err != nil {
+				runInfo.err = newStringError(expr, "no member named '"+expr.Name+"' for struct: embedded pointer is nil")
+				runInfo.rv = nilValue
+			}
 			return
 		}
 		if runInfo.rv.CanAddr() {
@@ -470,6 +475,12 @@ func (runInfo *runInfoStruct) invokeSliceExpr(expr *ast.SliceExpr) {
 
 	if item.Kind() == reflect.Interface && !item.IsNil() {
 		item = item.Elem()
+	}
+	if item.Kind() == reflect.Array && !item.CanAddr() {
+		// reflect cannot slice an array value that is not addressable (a Go array bound by value): slice a copy
+		c := reflect.New(item.Type()).Elem()
+		c.Set(item)
+		item = c
 	}
 
 	switch item.Kind() {
